@@ -286,8 +286,13 @@ func (f *file) Write(p []byte) (n int, err error) {
 }
 
 func (f *file) WriteBlob(p blob.Blob) (n int, err error) {
-	n, err = f.writeBlobAt("write", p, f.offset)
-	f.offset += int64(n)
+	off := f.offset
+	if f.flag&hackpadfs.FlagAppend != 0 && p.Len() > 0 {
+		// appending moves the offset to the end of the file
+		off = int64(f.Size())
+	}
+	n, err = f.writeBlobAt("write", p, off)
+	f.offset = off + int64(n)
 	return
 }
 
